@@ -33,6 +33,8 @@ def run(ctx):
     procs = [1, 2, 4] if q else [1, 2, 3, 4, 8, cores]
     serial = B.search_programs_from_tables(tables, MODES, [1], ["1", "q", "big"], rng)
     _batch.validate(ctx, serial, "random score tables (ties, negatives, non-monotone) x 8 modes, serial", chunk=800)
+    _batch.validate(ctx, B.repeated_search_programs(tables, rng, 40 if q else 400),
+                    "2-3 consecutive searches re-using one ParameterList object", chunk=800, isolated=True)
     par = []
     for p in procs[1:]:
         par += B.search_programs_from_tables(tables, MODES, [p], ["1", "q", "big"], rng)
